@@ -1341,8 +1341,9 @@ class SVG:
         fills = [shape.fill for shape in self.shapes()]
         # text (kept with allow_text) is not a shape but can be painted with a gradient
         fills.extend(
-            el.attrib.get("fill", "")
+            el.attrib.get(paint, "")
             for el in self.xpath("//svg:text | //svg:tspan | //svg:textPath")
+            for paint in ("fill", "stroke")
         )
         for fill in fills:
             if fill.lstrip().startswith("url("):
